@@ -19,7 +19,8 @@ RULE = ("stratified + seeded random (configuration, sample) pairs, parameters ov
         "extreme tuning parameter; distinct = hash of (configuration, sample)")
 REQUIRED = ["range_checked:fixed_alternative_mean", "range_checked:shrink_trunc", "range_checked:optimal_comparison",
             "range_checked:fixed_bet", "range_checked:agrapa", "strictly_above_mu_checked", "sign_entries_checked",
-            "one_step_extensions", "regime:fixed_alternative_impossible", "regime:margin_below_rate", "regime:optimal_comparison_u_le_1"]
+            "one_step_extensions", "regime:fixed_alternative_impossible", "regime:margin_below_rate", "regime:optimal_comparison_u_le_1",
+            "stratum:cap_binds_at_the_default_scale_then_zero", "bets_equal_to_the_cap_at_the_default_scale"]
 ASSUMPTIONS = ["mu_j recomputed by an independent loop; 'mu_j < u' for the strict clause means mu_j < u(1-1e-6), the "
                "tolerance the tests themselves use for mu_j = u", "fixed_bet's lambda is the user's; lambda <= 1/u is "
                "generated (the C01 quantifier)", "optimal_comparison mostly with u > 1 (comparison audits), u <= 1 in 20 % of its cases"]
@@ -48,6 +49,29 @@ def runs_sample(rng, cfg):
 def run_shard(spec, rec):
     rng = random.Random(f"c13-{spec['seed']}-{spec['shard']}")
     for i in range(spec["n"]):
+        if i % 16 == 15:
+            # the regime where the aGRAPA cap c/mu_j binds with c at its default 1 - eps (one ulp of slack): a small
+            # population, a null mean and observations that are not dyadic rationals, a low-variance sample a little
+            # above the null mean, then a 0 - the factor for that 0 is 1 - lambda_j mu_j, non-negative only if the cap
+            # is computed with the null mean the test itself uses
+            cfg = nn.gen_cfg(rng, combo=("betting_mart", None, "agrapa"), finite=True, allow_not_random=False)
+            for k in ("c_grapa_0", "c_grapa_max", "u_built", "N_warm", "int_dtype", "reused") + (("lam",) if rng.random() < 0.5 else ()):
+                cfg["kw"].pop(k, None)
+                cfg.pop(k, None)
+            if rng.random() < 0.5:
+                cfg["kw"]["c_grapa_0"] = cfg["kw"]["c_grapa_max"] = 1 - nn.EPS
+            cfg["u"] = rng.choice((1.0, 1.0, 1.2, 2 / 1.9))
+            cfg["t"] = rng.choice((0.6, 0.45, 0.3, 0.55, 0.5, 0.35))
+            if "lam" in cfg["kw"]:
+                cfg["kw"]["lam"] = 0.5 / cfg["u"]
+            cfg["N"] = rng.randint(4, 30)
+            n = rng.randint(2, cfg["N"] - 1)
+            w = rng.choice((0.05, 0.1, 0.2))
+            x = [min(cfg["u"], round(cfg["t"] + rng.random() * w, 2)) for _ in range(n)] + [0.0]
+            if nn.in_domain(cfg, x):
+                rec.count("stratum:cap_binds_at_the_default_scale_then_zero")
+                run_case({"cfg": cfg, "x": x, "stratum": "cap_binds_then_zero"}, rec)
+            continue
         combo = RANGE_COMBOS[i % len(RANGE_COMBOS)]
         cfg = nn.gen_cfg(rng, combo=combo, n_max=rng.choice((2, 4, 8, 12, 12, 40)), allow_not_random=False)
         if combo[1] == "optimal_comparison" and rng.random() < 0.5:
@@ -128,6 +152,9 @@ def run_case(case, rec):
                         if math.isnan(l[j]):
                             rec.violation("c13.range", f"{name}:nan", {"index": j, "lam": l, "mu": mu})
                             break
+                        if name == "agrapa" and l[j] * mu[j] > 1 - 4 * nn.EPS and "c_grapa_0" not in cfg["kw"] or cfg["kw"].get("c_grapa_0", 0) > 0.999:
+                            if l[j] * mu[j] > 1 - 4 * nn.EPS:
+                                rec.count("bets_equal_to_the_cap_at_the_default_scale")
                         if l[j] < 0 or l[j] > (1 / mu[j]) * (1 + 1e-12):
                             rec.violation("c13.range", f"{name}:{'negative' if l[j] < 0 else 'above_1_over_mu'}",
                                           {"index": j, "lam_j": l[j], "one_over_mu": 1 / mu[j], "lam": l, "mu": mu})
